@@ -88,24 +88,24 @@ def registration_keys_agree(prog, chk):
 
 
 def run(prog, chk):
-    unknown_ref_is_error(prog, chk)
-    registration(prog, chk)
-    registration_keys_agree(prog, chk)
+    chk.rule(unknown_ref_is_error, prog, chk)
+    chk.rule(registration, prog, chk)
+    chk.rule(registration_keys_agree, prog, chk)
     from props import C17, C15, C01_loops, C06
-    C17.depth_pairing(prog, chk)
-    C15.scope_pairing(prog, chk, "A5.scope")
-    retry_terminates(prog, chk)
-    retry_progress(prog, chk)
-    containment_every_target(prog, chk)
+    chk.rule(C17.depth_pairing, prog, chk)
+    chk.rule(C15.scope_pairing, prog, chk, "A5.scope")
+    chk.rule(retry_terminates, prog, chk)
+    chk.rule(retry_progress, prog, chk)
+    chk.rule(containment_every_target, prog, chk)
     from props import C04
-    C04.endpoints_overwritten_only_when_absent(prog, chk)  # an end point that still holds an unresolved reference is not "absent"
+    chk.rule(C04.endpoints_overwritten_only_when_absent, prog, chk)  # an end point that still holds an unresolved reference is not "absent"
     from props import geomalg
-    geomalg.check_sites(prog, chk, "C10")  # the box of a referenced element is the one its attributes define (a defaulted coordinate is a silent resolution)
-    C06.output_order(prog, chk)
-    error_swallow(prog, chk)
-    missing_bbox_default(prog, chk)
+    chk.rule(geomalg.check_sites, prog, chk, "C10")  # the box of a referenced element is the one its attributes define (a defaulted coordinate is a silent resolution)
+    chk.rule(C06.output_order, prog, chk)
+    chk.rule(error_swallow, prog, chk)
+    chk.rule(missing_bbox_default, prog, chk)
     from props import strops
-    strops.check_for(prog, chk, "C10")  # A14.str-ops: how this property's strings are cut up is a reviewed, frozen inventory
+    chk.rule(strops.check_for, prog, chk, "C10")  # A14.str-ops: how this property's strings are cut up is a reviewed, frozen inventory
 
 
 def _err_blocks(body):
